@@ -43,7 +43,7 @@ func c08CallSubst(extra map[string]string) map[string]string {
 var srcC08 = []*g2lTarget{
 	{
 		// validateRegistryScopeFormat (two regular expressions) is a PARAMETER
-		file: c08OCI, fn: "getArtifactPathFromReference", leanName: "getArtifactPathFromReference",
+		file: c08OCI, fn: "getArtifactPathFromReference", classSlices: true, leanName: "getArtifactPathFromReference",
 		params: "(validFmt : String → Option GoLite.Err) (artifactReference : String)",
 		ret:    "String × Option GoLite.Err", retOpt: []bool{false, true},
 		optVars:   []string{"err"},
